@@ -25,22 +25,35 @@ for d in sorted(glob.glob('/verif/seeded/*/*/')):
     rows.append(f'| {pid}/{name} | {title} | {needs} | {"; ".join(how) or "not run yet"} |')
 text = f"""## 8. Seeded changes: which checks catch which changes
 
-For every property an independent sub-agent, given ONLY the text of the property and a scratch worktree of `/repo` (nothing from
-`/verif`), wrote three changes that break the property while the whole existing suite (476 tests) still passes, each with a
-demonstration program (`demo.py`: exit 0 on the unchanged tree, exit 1 with the change). A change is kept under
-`/verif/seeded/<id>/<name>/` (`patch.diff`, `demo.py`, `meta.json`) only after the lead confirmed all of that in a scratch
-worktree (`tools/confirm_seeded.sh`; `meta.json: confirmed_by_lead`). `detected.json` records what the registered checks print
-when the patch is applied to `/repo` itself (`tools/seeded_run.sh`: apply, `./check <id> --tier quick`, undo straight away).
+Two rounds. In each, for every property an independent sub-agent, given ONLY the text of the property and a scratch worktree of
+`/repo` (nothing from `/verif`; in round 2 also the one-line titles of the round-1 changes, to avoid repeats), wrote three changes
+that break the property while the whole existing suite (476 tests) still passes, each with a demonstration program (`demo.py`:
+exit 0 on the unchanged tree, exit 1 with the change). A change is kept under `/verif/seeded/<id>/<name>/` (`patch.diff`,
+`demo.py`, `meta.json`; `m*` = round 1, `n*` = round 2) only after the lead confirmed all of that in a scratch worktree
+(`tools/confirm_seeded.sh`; `meta.json: confirmed_by_lead`). `detected.json` records what the registered checks print when the
+patch is applied to `/repo` itself (`tools/seeded_run.sh`: apply, `./check <id> --tier quick`, undo straight away): return code,
+number of VIOLATION lines, whether a concrete input was found, the first witnesses, and which proof obligation / tie broke as well.
+Three round-1 patches were re-based by hand after repairs in `/repo` touched the same lines (`patch.orig.diff` keeps the original).
 
 Checks were strengthened where a first trial missed a change (trial = `tools/try_seeded.sh`, same run against a scratch worktree
-through the `VERIF_REPO` test hook): C01 gained `history_shared` (sibling evaluation between two evaluations of a prepared
-formula), distinct initial values and zeros for free parameters, and `dsl`; C03 gained per-call histories of partial dictionaries,
-the iteration-file pairing and `results_names`; C08 the badly-scaled Hessian family; C10 formulas side by side with cross-formula
-draw types; C11 call histories and multi-type tables; C18 the two-data-set history; C19 overlaps at every pair of positions; C20
-falsy keyword values; C07 non-default tolerances; C04/C09 panel scaling and interrupted bootstraps; C12 overlapping nests at every
-pair of positions, multi-formula dictionaries with the fault in the first / middle / last formula, database histories, and the
-extraction of the accumulation rule of `BIOGEME._audit`; C15 saved coordinates that are exactly 0.0 / -0.0; C06 cross-nested
-specifications written with full alpha dictionaries (alpha = 0 listed, alternatives outside every nest).
+through the `VERIF_REPO` test hook). Round 1: C01 gained `history_shared` (sibling evaluation between two evaluations of a prepared
+formula), distinct initial values and zeros for free parameters, and `dsl`; C03 per-call histories of partial dictionaries, the
+iteration-file pairing and `results_names`; C08 the badly-scaled Hessian family; C10 formulas side by side with cross-formula draw
+types; C11 call histories and multi-type tables; C18 the two-data-set history; C19 overlaps at every pair of positions; C20 falsy
+keyword values; C07 non-default tolerances; C04/C09 panel scaling and interrupted bootstraps; C12 overlapping nests at every pair of
+positions, multi-formula dictionaries with the fault in each position, database histories, the accumulation rule of
+`BIOGEME._audit`; C15 saved coordinates exactly 0.0 / -0.0; C06 full alpha dictionaries. Round 2 (25 of 60 changes were missed or
+only half-caught at first): C01 `history_models` (several models / separate evaluations / a function created once sharing one
+sub-formula object), constants with long mantissas, the constants -1 and -2 side by side, repeated evaluations of one object with
+and without a dictionary; C04 the library's own splits (`extract_rows` on stepped ranges, `split(k)` with remainders,
+`mdcev_row_split`) with new theorems, constant weights; C06 nest names / reused nest objects and constant availabilities; C07
+bootstrap runs, histories on one object under recording spies, a likelihood with an undefined region; C08 histories of one
+raw-results object; C09 histories of one Database (edits of the table, re-declaration) with a Coq state machine; C10 histories with a
+shared draws / Derive / MonteCarlo / Integrate node; C11 boundary sizes of the Halton construction and more than 100000 points; C12
+evaluation histories and draw-type clashes across formulas; C14 histories on one Parameters object; C15 non-ASCII names in a C
+locale, scaled evaluations, bootstrap loops left by an exception; C16 histories where catalogs are created after controllers moved;
+C17 sigma of both signs; C18 both signs of the dual variable; C19 alternatives tables with permuted row labels. The second round
+also surfaced twelve genuine defects of the unchanged tree, all repaired (section 4).
 
 | Change | What | Needs to manifest | Result of the registered check(s) |
 |---|---|---|---|
